@@ -108,9 +108,8 @@ void Dot1Q::write_serialization(uint8_t* buffer, uint32_t total_sz) {
     OutputMemoryStream stream(buffer, total_sz);
     if (inner_pdu()) {
         Constants::Ethernet::e flag = Constants::Ethernet::UNKNOWN;
-        PDUType type = inner_pdu()->pdu_type();
         // Set the appropriate payload type flag
-        flag = Internals::pdu_flag_to_ether_type(type);
+        flag = Internals::pdu_to_ether_type(*inner_pdu());
         if (flag != Constants::Ethernet::UNKNOWN) {
             payload_type(static_cast<uint16_t>(flag));
         }
